@@ -1215,7 +1215,7 @@ theorem resolve_patchRec (code : Code) (base target pc : Nat) (ex : Int) :
 /-- evaluation of a pure expression fails only with a fault, an uninterpreted operation or
 lack of fuel — never with a control outcome -/
 theorem evalExpr_error {e : Expr} (he : Pure e) :
-    ∀ (f : Nat) (σ : S) (o : Outcome), evalExpr f e σ = .error o → o ≠ .normal ∧ o ≠ .brk := by
+    ∀ (f : Nat) (σ : S) (o : Outcome), evalExpr f e σ = .error o → o ≠ .normal ∧ o ≠ .brk ∧ o ≠ .ret := by
   induction he with
   | lit v => intro f σ o h; cases f <;> simp [evalExpr] at h; subst h; simp
   | var n =>
@@ -1267,7 +1267,7 @@ theorem evalExpr_error {e : Expr} (he : Pure e) :
           all_goals (subst h; simp)
 
 theorem evalRv_error {v : Rv} (hv : RvOK v) (f : Nat) (σ : S) (o : Outcome)
-    (h : evalRv f v σ = .error o) : o ≠ .normal ∧ o ≠ .brk := by
+    (h : evalRv f v σ = .error o) : o ≠ .normal ∧ o ≠ .brk ∧ o ≠ .ret := by
   cases f with
   | zero => simp [evalRv] at h; subst h; simp
   | succ f =>
